@@ -145,7 +145,8 @@ def run_on(fb, chk, tag=""):
             continue
         if not (set(o.path) & resets):
             # join failure (`?`) returns before the reset: acceptable only for the panic case
-            if not any(a[0] == "notok" and "join(" in show(a[1]) for a in o.atoms):
+            # (the join itself failing = the daemon thread panicked; a request error reported BY the thread is not exempt)
+            if not any(a[0] == "notok" and show(a[1]).startswith(("map_err(join(", "join(")) for a in o.atoms):
                 all_reset = False
         okr = ret_okness(o.ret)
         txt = [(a[0], show(a[1]) if isinstance(a[1], tuple) else "", a) for a in o.atoms]
